@@ -129,6 +129,7 @@ func (e *Engine) lookupNative(fi *FnInfo) *Native {
 			fn: func(e *Engine, s *State, gi int, fi *FnInfo, args []Value, kind retKind) {
 				p := subPtr(args[0].(Ptr), path)
 				e.store(s, p, ts.Const(32, 1))
+				e.raceAcquire(s, gi, "mu"+ptrKey(p))
 				e.finishCall(s, gi, kind, nil)
 			}}
 	case "(*sync.Mutex).TryLock":
@@ -149,6 +150,7 @@ func (e *Engine) lookupNative(fi *FnInfo) *Native {
 				e.gopanic("fatal error: sync: unlock of unlocked mutex")
 			}
 			e.store(s, p, ts.Const(32, 0))
+			e.raceRelease(s, gi, "mu"+ptrKey(p))
 			return nil
 		})
 		n.eager = true
@@ -216,6 +218,7 @@ func (e *Engine) lookupNative(fi *FnInfo) *Native {
 				e.gopanic("sync: negative WaitGroup counter")
 			}
 			e.store(s, p, ts.Const(64, uint64(c)))
+			e.raceRelease(s, gi, "wg"+ptrKey(p))
 			return nil
 		})
 	case "(*sync.WaitGroup).Wait":
@@ -225,12 +228,14 @@ func (e *Engine) lookupNative(fi *FnInfo) *Native {
 				return e.cellInt(s, subPtr(args[0].(Ptr), path)).val == 0
 			},
 			fn: func(e *Engine, s *State, gi int, fi *FnInfo, args []Value, kind retKind) {
+				e.raceAcquire(s, gi, "wg"+ptrKey(subPtr(args[0].(Ptr), path)))
 				e.finishCall(s, gi, kind, nil)
 			}}
 	case "(*sync.Once).Do":
 		path := e.structFieldPath(recvElem(fi), "done", "v")
 		return &Native{visible: true, fn: func(e *Engine, s *State, gi int, fi *FnInfo, args []Value, kind retKind) {
 			p := subPtr(args[0].(Ptr), path)
+			e.raceBoth(s, gi, "once"+ptrKey(p))
 			if e.cellInt(s, p).val != 0 {
 				e.finishCall(s, gi, kind, nil)
 				return
@@ -247,16 +252,19 @@ func (e *Engine) lookupNative(fi *FnInfo) *Native {
 	case "sync/atomic.AddUint64", "sync/atomic.AddInt64", "sync/atomic.AddUint32", "sync/atomic.AddInt32":
 		return visible(func(e *Engine, s *State, gi int, args []Value) Value {
 			p := args[0].(Ptr)
+			e.raceBoth(s, gi, "at"+ptrKey(p))
 			v := ts.BV(OpAdd, e.cellInt(s, p), args[1].(*Term))
 			e.store(s, p, v)
 			return v
 		})
 	case "sync/atomic.LoadUint64", "sync/atomic.LoadInt64", "sync/atomic.LoadUint32", "sync/atomic.LoadInt32":
 		return visible(func(e *Engine, s *State, gi int, args []Value) Value {
+			e.raceBoth(s, gi, "at"+ptrKey(args[0].(Ptr)))
 			return e.load(s, args[0].(Ptr))
 		})
 	case "sync/atomic.StoreUint64", "sync/atomic.StoreInt64", "sync/atomic.StoreUint32", "sync/atomic.StoreInt32":
 		return visible(func(e *Engine, s *State, gi int, args []Value) Value {
+			e.raceBoth(s, gi, "at"+ptrKey(args[0].(Ptr)))
 			e.store(s, args[0].(Ptr), args[1])
 			return nil
 		})
@@ -437,6 +445,7 @@ func (e *Engine) atomicTyped(fi *FnInfo) *Native {
 	switch meth {
 	case "Load":
 		return visible(func(e *Engine, s *State, gi int, args []Value) Value {
+			e.raceBoth(s, gi, "at"+ptrKey(subPtr(args[0].(Ptr), path)))
 			v := e.load(s, subPtr(args[0].(Ptr), path))
 			if isBoolT(fi.fn.Signature.Results().At(0).Type()) {
 				return ts.Not(ts.Eq(v.(*Term), ts.Const(v.(*Term).w, 0)))
@@ -448,6 +457,7 @@ func (e *Engine) atomicTyped(fi *FnInfo) *Native {
 		})
 	case "Store":
 		return visible(func(e *Engine, s *State, gi int, args []Value) Value {
+			e.raceBoth(s, gi, "at"+ptrKey(subPtr(args[0].(Ptr), path)))
 			v := args[1]
 			if t, ok := v.(*Term); ok && t.w == 0 {
 				w, _, _ := intWidth(vt)
@@ -459,6 +469,7 @@ func (e *Engine) atomicTyped(fi *FnInfo) *Native {
 	case "Add":
 		return visible(func(e *Engine, s *State, gi int, args []Value) Value {
 			p := subPtr(args[0].(Ptr), path)
+			e.raceBoth(s, gi, "at"+ptrKey(p))
 			v := ts.BV(OpAdd, e.cellInt(s, p), args[1].(*Term))
 			e.store(s, p, v)
 			return v
